@@ -28,6 +28,8 @@ PROPS = {
     "C15": {"engines": [
         {"name": "frrk8s-witness", "pkg": "internal/bgp/frrk8s", "run": "^TestVerifC15Witness$", "rapid": False,
          "checks": {Q: 1, T: 1}, "shards": {Q: 1, T: 1}},
+        {"name": "frrk8s-reconciler", "pkg": "internal/k8s/controllers", "run": "^TestVerifC15Reconciler$",
+         "checks": {Q: 1500, T: 160000}, "shards": {Q: 2, T: 16}},
         {"name": "password", "pkg": "speaker", "run": "^TestVerifC15Password$",
          "checks": {Q: 2000, T: 20000}, "shards": {Q: 1, T: 2}},
         {"name": "frrk8s-config", "pkg": "internal/bgp/frrk8s", "run": "^TestVerifC15Config$",
